@@ -1,6 +1,8 @@
 package composite
 
 import (
+	"context"
+	"encoding/json"
 	"fmt"
 	"os"
 	"testing"
@@ -18,6 +20,8 @@ import (
 	metav1 "k8s.io/apimachinery/pkg/apis/meta/v1"
 	"k8s.io/apimachinery/pkg/labels"
 	"k8s.io/apimachinery/pkg/runtime/schema"
+	"k8s.io/apimachinery/pkg/types"
+	"sigs.k8s.io/controller-runtime/pkg/reconcile"
 	"k8s.io/client-go/tools/cache"
 	"k8s.io/klog/v2"
 )
@@ -157,4 +161,38 @@ func (a *compositeAdapter) RelatedUpdate(old, cur any) {
 func (a *compositeAdapter) RelatedDelete(obj any) { a.pc.customize.VerifOnRelatedDelete(obj) }
 func (a *compositeAdapter) ParseKey(key string) (string, string, error) {
 	return cache.SplitMetaNamespaceKey(key)
+}
+
+// ---- C20: Metacontroller.Reconcile driver ----
+
+type c20CompositeDriver struct{ mc *Metacontroller }
+
+func newC20CompositeDriver(env *vw.C20Env) *c20CompositeDriver {
+	return &c20CompositeDriver{mc: &Metacontroller{
+		k8sClient:         env.K8s,
+		resources:         env.W.Resources,
+		dynClient:         env.W.DynClient,
+		dynInformers:      env.Factory,
+		eventRecorder:     vw.NopRecorder{},
+		mcClient:          env.W.McClient,
+		revisionLister:    env.W.RevLister,
+		parentControllers: make(map[string]*parentController),
+		numWorkers:        2,
+		ssaOptions:        &common.ApplyOptions{Strategy: common.ApplyStrategyDynamicApply},
+		logger:            logr.Discard(),
+	}}
+}
+
+func (d *c20CompositeDriver) Reconcile(name string) error {
+	_, err := d.mc.Reconcile(context.Background(), reconcile.Request{NamespacedName: types.NamespacedName{Name: name}})
+	return err
+}
+
+func (d *c20CompositeDriver) Running() map[string][2]string {
+	out := map[string][2]string{}
+	for n, pc := range d.mc.parentControllers {
+		b, _ := json.Marshal(pc.cc.Spec)
+		out[n] = [2]string{fmt.Sprintf("%p", pc), string(b)}
+	}
+	return out
 }
